@@ -19,7 +19,7 @@ from sim.runner import Outcome
 
 ID = "C10"
 LEVEL = "fault_enumeration"
-RUN_WALL_S = 12
+RUN_WALL_S = 40
 TIERS = {
     "quick": {"cases": 16000, "episode": 50, "selftest": 32, "wall_cap_s": 600, "shrink_s": 45},
     "thorough": {"cases": 600_000, "episode": 100, "selftest": 256, "wall_cap_s": 3 * 3600, "shrink_s": 120},
@@ -46,8 +46,18 @@ ASSUMPTIONS = [
     "cut offsets are exhaustive per enumerated workload; workloads are sampled",
 ]
 EXPECTED_PROBES = ("eof_at_boundary", "eof_in_prefix", "eof_in_header", "eof_in_body", "empty_source", "sock_fin",
-                   "sock_rst", "sock_stall_timeout", "disk_eio", "garbage_bytes", "trim_taken_before_cut", "huge_packet", "non_seekable_file")
+                   "sock_rst", "sock_stall_timeout", "disk_eio", "garbage_bytes", "trim_taken_before_cut", "huge_packet", "non_seekable_file", "genuine_20MB_stream")
 ENUM_LIMIT = 160
+BIG_DEN = 30_000
+
+
+def systematic():
+    """Cases 0..3: genuine > 20 MB streams cut near the end: bytes, file, socket, non-seekable file."""
+    cum, starts = 0, {}
+    for wt, name in [(4, "bytes"), (5, "file"), (2, "bytesio"), (6, "socket"), (2, "pipefile")]:
+        starts[name] = cum
+        cum += wt
+    return [[BIG_DEN - 1, starts[n_]] for n_ in ("bytes", "file", "socket", "pipefile")]
 
 _packets = factory.import_library()          # import only
 from space_packet_parser.xtce.definitions import XtcePacketDefinition  # noqa: E402
@@ -79,6 +89,7 @@ def run(ch, render=False):
     out = Outcome()
     w = World(ch, max_steps=100_000)
     pk = _packets
+    big = ch.chance(1, BIG_DEN, "big")          # a genuine > 20 MB stream that dies near its end (cases 0..3, and rarely later)
     src = ch.weighted([(4, "bytes"), (5, "file"), (2, "bytesio"), (6, "socket"), (2, "pipefile")], "source")
     consumer = ch.weighted([(3, "ccsds_generator"), (1, "packet_generator_headers_only"),
                             (2, "packet_generator_parsed")], "consumer")
@@ -90,6 +101,10 @@ def run(ch, render=False):
     # swarm knob: the buffer-trim threshold (20 MB in the shipped code) replaced by a small value in a clone of
     # ccsds_generator, so that the trim branch is taken before the crash point
     knob = ch.pick((None, 7, 64, 1000), "trim")
+    if big:
+        knob, progress, skind, long_ = None, False, "valid", True
+        k = 0 if k > 16 else k
+        rs = ch.pick((65536, None, 1 << 20), "big_read_size")
     # error-injection configuration is separate from plain truncation (and counted separately)
     inject = "none"
     if src == "socket":
@@ -111,6 +126,13 @@ def run(ch, render=False):
         else:
             n = 1 + ch.draw(6, "n")
             cap = 18
+        if big:
+            body = payload(1 + ch.draw(1 << 16, "bigpayload"), 65536)
+            for i in range(20_000_100 // (65542 + k) + 1):
+                pkts.append(factory.build_packet(0, 0, 0, (i * 7) & 0x7FF, 3, i & 0x3FFF, body))
+            n = 2 + ch.draw(3, "big_tail")
+            huge = False
+            w.probe("genuine_20MB_stream")
         if huge:
             n = 1 + ch.draw(3, "n_huge")
             if isinstance(rs, int) and rs < 4096:
@@ -152,7 +174,11 @@ def run(ch, render=False):
         cut = ch.draw(total + 1, "cut")
         out.fanout = (cut_pos, total + 1)
     else:
-        if layout and ch.chance(3, 4, "cut_near_boundary"):
+        if big:
+            s, kk, e = layout[len(layout) - 1 - ch.draw(min(4, len(layout)), "big_cut_pkt")]
+            anchor = ch.pick((e, s, s + kk, s + kk + 6, (s + e) // 2), "cut_anchor")
+            cut = max(0, min(total, anchor + ch.pick((0, -1, 1, -2, 2), "cut_delta")))
+        elif layout and ch.chance(3, 4, "cut_near_boundary"):
             s, kk, e = layout[ch.draw(len(layout), "cut_pkt")]
             anchor = ch.pick((e, s, s + kk, s + kk + 6), "cut_anchor")
             cut = max(0, min(total, anchor + ch.pick((0, -1, 1, -2, 2), "cut_delta")))
@@ -190,10 +216,12 @@ def run(ch, render=False):
         # a finite, NON-seekable binary file object (pipe, FIFO, sys.stdin.buffer): a real BufferedReader over a
         # raw device that refuses seek()/tell()
         raw = SimRaw(w, delivered, seekable=False)
-        source = io.BufferedReader(raw, buffer_size=ch.pick((8192, 1, 7, 16, 4096), "bufsize"))
+        source = io.BufferedReader(raw, buffer_size=(65536 if big else ch.pick((8192, 1, 7, 16, 4096), "bufsize")))
         w.probe("non_seekable_file")
     elif src == "file":
         bufsize = ch.pick((8192, 1, 7, 16, 4096), "bufsize")
+        if big:
+            bufsize = 65536
         fail_at = None
         if inject == "eio":
             fail_at = ch.draw(6, "eio_at")
@@ -203,6 +231,8 @@ def run(ch, render=False):
         pipe = Pipe(w)
         wsizes = ch.pick(("all", "packets", "drawn"), "wsizes")
         take_mode = ch.pick(("all", "drawn", "one"), "take")
+        if big:
+            wsizes, take_mode = "packets", "all"        # 20 MB byte by byte would take minutes and prove nothing more
         rst_after = ch.draw(cut + 1, "rst_after") if inject == "rst" else None
 
         def producer():
